@@ -1273,6 +1273,9 @@ class Interp:
         out = self._exec_switch(frame, state, t, line)
         if len(out) > 1:
             self.forks += 1
+        tr = getattr(self, '_cl_track', None)
+        if tr is not None and tr[0] is frame and tr[1] is None:
+            tr[1] = len(out) > 1
         return out
 
     def _exec_switch(self, frame, state, t, line):
@@ -1602,35 +1605,58 @@ class Interp:
         blocks = frame.loop_blocks[header]
         marks = (len(self.sites), len(self.loops), len(self.events))
         state = st0
-        for _k in range(limit):
-            forks0 = self.forks
-            try:
-                outs = self.run_blocks(frame, header, blocks, state.copy(), as_loop_body=True)
-            except Unsupported:
-                outs = None
-            if outs is None or self.forks != forks0:
-                # the iteration branched on symbolic data: not a constant-trip straight-line loop
-                break
-            backs = outs.get(header, [])
-            exits = {t: ss for t, ss in outs.items() if t != header}
-            if backs and exits:
-                break
-            if exits:
-                if sum(len(ss) for ss in exits.values()) != 1 or any(s.guard for ss in exits.values() for s in ss):
+        acc = {}            # exits collected from earlier, branching iterations
+        branching = 0
+        saved = getattr(self, '_cl_track', None)
+        try:
+            for _k in range(limit):
+                forks0 = self.forks
+                self._cl_track = [frame, None]
+                try:
+                    outs = self.run_blocks(frame, header, blocks, state.copy(), as_loop_body=True)
+                except Unsupported:
+                    outs = None
+                first_forked = self._cl_track[1]
+                if outs is None:
                     break
-                res = {}
-                for t, ss in exits.items():
-                    m = ss[0]
-                    res[t] = [State(m.store, st0.guard, st0.facts | m.facts)]
-                return res
-            if not backs:
-                return {}
-            # only straight-line iterations are interpreted concretely: a body that branches on symbolic
-            # data (several paths, or a non-empty local guard) is summarised instead
-            if len(backs) != 1 or backs[0].guard:
-                break
-            m = backs[0]
-            state = State(m.store, st0.guard, st0.facts | m.facts)
+                forked = self.forks != forks0
+                backs = outs.get(header, [])
+                exits = {t: ss for t, ss in outs.items() if t != header}
+                if forked or acc:
+                    # the iteration branched on symbolic data.  When the loop's own exit test (the first switch of
+                    # the iteration in this frame) was decided, the trip count is still a constant: the paths
+                    # that come back are joined and the next iteration is interpreted under their condition,
+                    # the paths that leave are handed on with theirs.
+                    if first_forked is not False:
+                        break
+                    branching += 1
+                    if branching > 12:
+                        break
+                    for t, ss in exits.items():
+                        acc.setdefault(t, []).extend(ss)
+                    if not backs:
+                        return acc
+                    m = self.merge_states(backs)
+                    state = State(m.store, m.guard, st0.facts | m.facts)
+                    continue
+                if backs and exits:
+                    break
+                if exits:
+                    if sum(len(ss) for ss in exits.values()) != 1 or any(s.guard != st0.guard for ss in exits.values() for s in ss):
+                        break
+                    res = {}
+                    for t, ss in exits.items():
+                        m = ss[0]
+                        res[t] = [State(m.store, st0.guard, st0.facts | m.facts)]
+                    return res
+                if not backs:
+                    return {}
+                if len(backs) != 1 or backs[0].guard != st0.guard:
+                    break
+                m = backs[0]
+                state = State(m.store, st0.guard, st0.facts | m.facts)
+        finally:
+            self._cl_track = saved
         del self.sites[marks[0]:]
         del self.loops[marks[1]:]
         del self.events[marks[2]:]
